@@ -211,7 +211,7 @@ func init() {
 		Assumptions: []string{"root on a file system with mknod/xattr support; unprivileged receiver emulated by switching the effective uid/gid of the whole process (capabilities are dropped with it)", "the source is not modified during the transfer", "entries whose identity equals the old destination's are legitimately not re-transferred (C02)"},
 		Cases: func(tier string) int {
 			if tier == "thorough" {
-				return 60000
+				return 360000
 			}
 			return 4000
 		},
